@@ -3,6 +3,7 @@ import ast
 from ..model import own_nodes, AnalysisError
 from ..paths import factmap, call_text, returns, must_call
 from .. import supstates
+from . import shared
 from ..callgraph import CallGraph
 
 
@@ -254,6 +255,8 @@ def run(P, R):
     R.check(r5, ok, 'after() runs once in-flight starts have ended', 'strategy|after-call', u.loc(),
             'Commander.next calls after() under %s' % [sorted(tuple(f) for f in fm.at(c)) for c in ac])
 
+    shared.enum_classes(P, R, r5, only=('starting_failure_strategy',))
+
     # ---------------------------------------------------------------- R6
     r6 = R.rule('R6', 'must-call in branch', 'every give-up path reports the failure: no resource -> fail_command + '
                 'process_failure; timeout -> fail_command (ApplicationJobs.check); instance lost -> process_failure '
@@ -276,6 +279,8 @@ def run(P, R):
     ok = len(pf) == 1 and ('command.identifier in invalidated_identifiers', True) in {tuple(f) for f in fm.at(pf[0])}
     R.check(r6, ok, 'host lost: starting failure strategy applied', 'giveup|invalidation', u.loc(),
             'on_instances_invalidation does not call process_failure for the commands of the lost instances')
+    shared.request_stamp(P, R, r6)
+
     # ---------------------------------------------------------------- R7
     r7 = R.rule('R7', 'gate facts', 'restart_sequence (a second automatic distribution) is refused while ANY instance '
                 'still has start or stop jobs in progress (Supvisors-wide starting/stopping identifiers, not the local '
